@@ -8,41 +8,6 @@ import Genshi.Model.SubstEmit
 namespace Genshi.Subst
 open Genshi.Escape Genshi.Str
 
-inductive FAttr where
-  | lit (v : List Char)      -- a literal attribute value (its text, not yet escaped)
-  | hole                     -- `%s`
-  deriving Repr, DecidableEq, Inhabited
-
-inductive FPiece where
-  | text (s : List Char)     -- literal character data (its text, not yet escaped)
-  | hole                     -- `%s` in text position
-  | open (tag : Name) (attrs : List (Name × FAttr))
-  | close (tag : Name)
-  deriving Repr, Inhabited
-
-/-- a literal `%` is written `%%` in a format string -/
-def pctDouble (s : List Char) : List Char := s.flatMap fun c => if c = '%' then ['%', '%'] else [c]
-
-def fmtAttr (p : Name × FAttr) : List Char :=
-  match p.2 with
-  | .lit v => ' ' :: (p.1 ++ ('=' :: '"' :: (pctDouble (escapePy true v) ++ ['"'])))
-  | .hole => ' ' :: (p.1 ++ ['=', '"', '%', 's', '"'])
-
-/-- the format string the author writes for the pieces -/
-def fmtString : List FPiece → List Char
-  | [] => []
-  | .text s :: rest => pctDouble (escapePy false s) ++ fmtString rest
-  | .hole :: rest => '%' :: 's' :: fmtString rest
-  | .open t attrs :: rest => '<' :: (t ++ (attrs.flatMap fmtAttr ++ '>' :: fmtString rest))
-  | .close t :: rest => '<' :: '/' :: (t ++ '>' :: fmtString rest)
-
-/-- fill the attribute holes from the operands; `none`: not enough operands -/
-def fillAttrs : List (Name × FAttr) → List (List Char) → Option (List (Name × List Char) × List (List Char))
-  | [], as => some ([], as)
-  | (n, .lit v) :: rest, as => (fillAttrs rest as).map fun r => ((n, v) :: r.1, r.2)
-  | (_, .hole) :: _, [] => none
-  | (n, .hole) :: rest, a :: as => (fillAttrs rest as).map fun r => ((n, a) :: r.1, r.2)
-
 /-- the serializer tokens the filled pieces stand for: literal text and holes are character
     data, tags are tags whose attribute values are the literal values and the operands -/
 def fill : List FPiece → List (List Char) → Option (List Tok)
